@@ -36,7 +36,7 @@ enum Dl {
 impl Deadline for Dl {
     fn into_time(self, now: MonotonicTime) -> MonotonicTime {
         match self {
-            Dl::Abs(t) => MonotonicTime::EPOCH + Duration::from_nanos(t),
+            Dl::Abs(t) => base() + Duration::from_nanos(t),
             Dl::Rel(d) => now + Duration::from_nanos(d),
         }
     }
@@ -66,8 +66,14 @@ impl Deadline for ParkDl {
         self.0.into_time(now)
     }
 }
+/// Origin of the harness's time axis: `MonotonicTime::EPOCH`, or a million seconds before it (`base neg`) so that the
+/// whole case runs at negative TAI times (cases are run one after the other in a process).
+static BASE_SECS: std::sync::atomic::AtomicI64 = std::sync::atomic::AtomicI64::new(0);
+fn base() -> MonotonicTime {
+    MonotonicTime::new(BASE_SECS.load(std::sync::atomic::Ordering::SeqCst), 0).unwrap()
+}
 fn ns(t: MonotonicTime) -> u64 {
-    t.duration_since(MonotonicTime::EPOCH).as_nanos() as u64
+    t.duration_since(base()).as_nanos() as u64
 }
 
 #[derive(Clone)]
@@ -450,6 +456,7 @@ fn run_case(lines: Vec<String>, hints: Arc<Mutex<Vec<String>>>, resp: Arc<Mutex<
         }
         let r: String = match w.as_slice() {
             ["case", "sched", n, "tol", tl, "t0", t, "exec", ex, "cap", cp] => {
+                BASE_SECS.store(0, std::sync::atomic::Ordering::SeqCst);
                 cap = cp.parse().unwrap();
                 tags.lock().unwrap().push(format!("mailbox-cap.{cp}"));
                 nmodels = n.parse().unwrap();
@@ -459,6 +466,13 @@ fn run_case(lines: Vec<String>, hints: Arc<Mutex<Vec<String>>>, resp: Arc<Mutex<
                 tags.lock().unwrap().push(format!("exec.{ex}"));
                 if tol.is_some() {
                     tags.lock().unwrap().push("tolerance".into());
+                }
+                "ok".into()
+            }
+            ["base", which] => {
+                if *which == "neg" {
+                    BASE_SECS.store(-1_000_000, std::sync::atomic::Ordering::SeqCst);
+                    tags.lock().unwrap().push("start-before-epoch".into());
                 }
                 "ok".into()
             }
@@ -537,7 +551,7 @@ fn run_case(lines: Vec<String>, hints: Arc<Mutex<Vec<String>>>, resp: Arc<Mutex<
                 if let Some(t) = tol {
                     si = si.set_clock_tolerance(Duration::from_nanos(t));
                 }
-                match si.init(MonotonicTime::EPOCH + Duration::from_nanos(t0)) {
+                match si.init(base() + Duration::from_nanos(t0)) {
                     Ok((sim, sched)) => {
                         *handle.lock().unwrap() = Some((sched.clone(), addrs.clone()));
                         let now = ns(sim.time());
@@ -698,7 +712,7 @@ fn run_case(lines: Vec<String>, hints: Arc<Mutex<Vec<String>>>, resp: Arc<Mutex<
                     ["until", dk, t] => {
                         let d = parse_dl(dk, t);
                         match d {
-                            Dl::Abs(t) => b.sim.step_until(MonotonicTime::EPOCH + Duration::from_nanos(t)),
+                            Dl::Abs(t) => b.sim.step_until(base() + Duration::from_nanos(t)),
                             Dl::Rel(t) => b.sim.step_until(Duration::from_nanos(t)),
                         }
                     }
@@ -1203,6 +1217,10 @@ fn gen_case(rng: &mut Rng, tier: Tier, focus: &str) -> Case {
         tol.map(|t| t.to_string()).unwrap_or("none".into()),
         rng.pick(&[1u64, 1, 2, 3, 16, 16, 512])
     )];
+    // one case in three (one in two under C18 / C01 / C15) runs entirely before the epoch (negative TAI seconds)
+    if rng.chance(1, if focus == "C18" || focus == "C01" || focus == "C15" { 2 } else { 3 }) {
+        lines.push("base neg".into());
+    }
     // scripted lags: rare, and mostly below the tolerance
     let mut clock = vec![];
     let nlags = if rng.chance(1, 3) { rng.range(1, 3) } else { 0 };
